@@ -20,6 +20,10 @@ BODY_BYTES = {
     'binary': b'\x00\xff\r\n\r\n0\r\n\r\nHTTP/1.1 200 OK\r\n\x85',
     # a stored message: header-looking lines and blank lines inside the body, while the
     # response itself carries no Content-Type
+    # bodies whose Content-Type uses every token character RFC 7231 allows / a 200-character
+    # subtype (see make)
+    'tokct': b'token characters',
+    'longct': b'long subtype',
     'mime': b'Subject: x\r\nContent-Type: application/x-inner\r\n\r\ninner body\r\n\r\ntail',
 }
 
@@ -137,7 +141,9 @@ def make(style, framing, body):
              'deflate': 'TEXT/Html', 'gzip': 'image/svg+xml',
              'rawdeflate': 'application/vnd.ms-excel; x=1',
              'big': 'application/atom+xml;charset=utf-8',
-             'empty': 'application/x.y-z_1+json'}.get(body)
+             'empty': 'application/x.y-z_1+json',
+             'tokct': "application/x-it's*all|legal%token~v2`; q=1",
+             'longct': 'application/x-' + 'subtype.' * 25 + ';charset=utf-8'}.get(body)
     if ctype:
         fields.append(('Content-Type', ctype))
     if coding:
